@@ -39,6 +39,10 @@ pub enum OStep {
     /// C13 only: the process dies (all writes so far / synced writes only survive); whatever the
     /// reopened replica holds, its heads must be the heads of exactly those entries
     Crash { l2: bool },
+    /// C13 only: the store is reopened from a file without the head table and/or the by-key
+    /// index (as written by an older version); the rebuilt heads must again be the heads of
+    /// exactly the entries held
+    Rebuild { by_key: bool, heads: bool },
     Flush,
     /// age the open transaction at the n-th internal store call of the next operation
     Age { at: u32 },
@@ -118,6 +122,7 @@ impl Scenario for Offer {
                     0 => steps.push(OStep::Check),
                     1 if backend != Backend::Mem => steps.push(OStep::Restart),
                     8 if backend == Backend::Disk && self.mode == Mode::Heads => steps.push(OStep::Crash { l2: rng.chance(1, 2) }),
+                    10 if backend == Backend::Disk && self.mode == Mode::Heads => steps.push(OStep::Rebuild { by_key: rng.chance(1, 3), heads: rng.chance(5, 6) }),
                     2 => steps.push(OStep::Flush),
                     3 | 4 => steps.push(OStep::Age { at: rng.below(6) as u32 }),
                     5 if self.mode == Mode::Heads => steps.push(OStep::News { heads: gen_heads(rng, &g) }),
@@ -201,7 +206,7 @@ impl Scenario for Offer {
             out.push(p);
         }
         // simpler backend, simpler paths
-        if plan.backend != Backend::Mem && !plan.replicas.iter().flatten().any(|s| matches!(s, OStep::Restart | OStep::Crash { .. })) {
+        if plan.backend != Backend::Mem && !plan.replicas.iter().flatten().any(|s| matches!(s, OStep::Restart | OStep::Crash { .. } | OStep::Rebuild { .. })) {
             let mut p = plan.clone();
             p.backend = Backend::Mem;
             out.push(p);
@@ -383,6 +388,23 @@ impl Offer {
                             sut.restart_clean()?;
                             cx.fault("clean_restart");
                             cx.ev("restart", format!("r{ri}"));
+                        }
+                    }
+                    OStep::Rebuild { by_key, heads: drop_heads } => {
+                        if self.mode == Mode::Heads && sut.backend == Backend::Disk && (*by_key || *drop_heads) {
+                            crate::scen::query::drop_derived(&mut sut, *by_key, *drop_heads)?;
+                            cx.fault("older_version_database");
+                            cx.ev("rebuild", format!("r{ri} {by_key} {drop_heads}"));
+                            self.check(sut.store(), &model, ri, cx, "after the derived tables were rebuilt")?;
+                            check_neighbours(sut.store(), &neighbour_models, ri)?;
+                            // the other documents of the store had their heads rebuilt too
+                            for (nd, nm) in &neighbour_models {
+                                let got: BTreeMap<u8, u64> = heads(sut.store(), *nd).map_err(harness)?.into_iter().map(|(a, (ts, _))| (a, ts)).collect();
+                                let want: BTreeMap<u8, u64> = nm.heads();
+                                if got != want {
+                                    return Err(Violation::new("head/neighbour-after-rebuild", format!("replica {ri}: after the head table was rebuilt, document d{nd} of the same store reports heads {got:?}, its entries give {want:?}")));
+                                }
+                            }
                         }
                     }
                     OStep::Crash { l2 } => {
